@@ -12,6 +12,9 @@ from .explore import Explorer, Stats, linear_replay, _jsonable
 _FACTORIES: List[Callable] = []
 
 
+RECYCLE = 400      # work items (= scheduler boots) per worker process
+
+
 def _worker(wid: int, shared, n: int, conn):
     """Search worker: pulls work items (any profile) until all are done."""
     import time as _t
@@ -22,8 +25,15 @@ def _worker(wid: int, shared, n: int, conn):
     scratch.mkdir(parents=True, exist_ok=True)
     core.hermetic_env(scratch)
     explorers = {}
+    n_items = 0
+    recycled = False
     try:
         while True:
+            if n_items >= RECYCLE:
+                # the scheduler leaks ~150 kB per boot (C-level caches):
+                # retire this process, the parent starts a fresh one
+                recycled = True
+                break
             item = shared.pop()
             if item == 'done':
                 break
@@ -31,6 +41,7 @@ def _worker(wid: int, shared, n: int, conn):
                 H._ORIG_SLEEP(0.02)
                 continue
             idx = item[0]
+            n_items += 1
             try:
                 ex = explorers.get(idx)
                 if ex is None:
@@ -52,7 +63,7 @@ def _worker(wid: int, shared, n: int, conn):
                 v['profile_index'] = idx
                 v['spec_name'] = ex.p.spec.get('name', '')
             out[idx] = ex.st
-        conn.send(out)
+        conn.send((recycled, out))
         conn.close()
 
 
@@ -77,27 +88,35 @@ def explore_all(ctx: Ctx, factories: List[Callable], *, max_states=3000,
     try:
         shared = mgr.Shared(n, max_states, max_seconds, max_violations)
         shared.push([(i, [], None, None) for i in reversed(range(n))])
-        procs = []
+        from multiprocessing.connection import wait as _wait
         nw = max(1, min(ctx.workers, 16))
-        for wid in range(nw):
+        live = {}
+
+        def spawn(wid):
             pc, cc = mpc.Pipe(duplex=False)
             p = mpc.Process(target=_worker, args=(wid, shared, n, cc))
             p.start()
             cc.close()
-            procs.append((p, pc))
-        names = {}
-        for p, pc in procs:
-            try:
-                out = pc.recv()
-            except EOFError:
-                out = None
-            p.join()
-            if out is None or p.exitcode != 0:
-                total.error = total.error or (
-                    f'search worker died (exit {p.exitcode})')
-                continue
-            for idx, st in out.items():
-                total.merge(st)
+            live[pc] = (p, wid)
+        for wid in range(nw):
+            spawn(wid)
+        while live:
+            for pc in _wait(list(live)):
+                p, wid = live.pop(pc)
+                try:
+                    recycled, out = pc.recv()
+                except EOFError:
+                    recycled, out = False, None
+                pc.close()
+                p.join()
+                if out is None or p.exitcode != 0:
+                    total.error = total.error or (
+                        f'search worker died (exit {p.exitcode})')
+                    continue
+                for idx, st in out.items():
+                    total.merge(st)
+                if recycled and not total.error:
+                    spawn(wid)
         sizes, capped, failed = shared.summary()
         total.workflows = n
         total.states = sum(sizes)
